@@ -251,7 +251,7 @@ class Combinators(Harness):
                  RP + "AndCondition.is_satisfied", RP + "CDSCondition.is_satisfied", RP + "Details.in_range", RP + "Details.just_cds",
                  RP + "ConditionMet"]
     bound = ("one combinator node (group / not-group over 1-3 operands joined by or; and-chain of 2-3 operands; cds(...) and not cds(...) "
-             "around one operand, an or-list or an and-chain) whose 1-3 children are stubs with arbitrary results: truth value and "
+             "around one operand, a two-operand or-list or and-chain) whose 1-3 children are stubs with arbitrary results: truth value and "
              "reported profile per (gene, local flag) are symbolic booleans; 3 genes with symbolic coordinates, cutoff and record "
              "length, linear and circular; evaluated at gene 0 in normal mode and (for groups and and-chains) in the local mode "
              "used inside cds(...)")
@@ -266,7 +266,8 @@ class Combinators(Harness):
             for k in (1, 2, 3):
                 for local in (False, True):
                     out.append({"node": "group", "neg": neg, "k": k, "local": local, "circ": False})
-            for inner, k in (("one", 1), ("or", 2), ("and", 2)) + ((("or", 3), ("and", 3)) if tier == "thorough" else ()):
+            # (three operands inside cds(...) cost ~10^4 paths per variant and add nothing to the uniform loop over operands)
+            for inner, k in (("one", 1), ("or", 2), ("and", 2)):
                 for circ in (False, True):
                     if tier == "quick" and (inner, circ) in (("or", True), ("and", False)):
                         continue
